@@ -67,14 +67,18 @@ func (g *jgen) topics(n, universe int) []uint64 {
 func jZeros(n int) []uint64 { return make([]uint64, n) }
 
 var jErrKindName = []string{"plain", "Temporary()", "Timeout()", "wraps-os.ErrDeadlineExceeded", "wraps-context.DeadlineExceeded",
-	"wraps-context.Canceled", "*net.OpError", "own-ctx.Err()-itself", "own-ctx.Err()-wrapped-%w", "own-ctx.Err()-in-scripted-value"}
+	"wraps-context.Canceled", "*net.OpError", "own-ctx.Err()-itself", "own-ctx.Err()-wrapped-%w", "own-ctx.Err()-in-scripted-value",
+	"wraps-sse.ErrNoTopic", "wraps-sse.ErrProviderClosed", "wraps-sse.ErrUnexpectedEOF", "wraps-io.EOF", "14", "15", "16", "17", "18", "19"}
 
 // errOf draws a scripted error verdict: a small number, half of the time plain, else of one of the first `kinds`
 // characters (see jErr).
 func (g *jgen) errOf(kinds int) uint64 {
 	kind := 0
 	if g.r.Bool() {
-		kind = 1 + g.r.Intn(kinds-1)
+		// the characters below `kinds`, and the library's own sentinels (10-13), which need no subscriber
+		if kind = 1 + g.r.Intn(kinds-1+4); kind >= kinds {
+			kind = 10 + kind - kinds
+		}
 	}
 	return uint64(100 + 10*kind + g.r.Intn(5))
 }
@@ -1534,6 +1538,38 @@ func genJoe(c *Ctx) {
 	for n := 0; n < 40*mult; n++ {
 		s, name := g.tplRepFault(maxSubs)
 		g.emit("joe", "replayer-fault/"+name, s)
+	}
+	// every error character at every replayer site and at a writer: 2-3 subscribers, one publisher of 3-4 messages,
+	// the fault at the second call
+	for rep := 0; rep < mult/2; rep++ {
+		for _, kind := range []uint64{0, 1, 2, 3, 4, 5, 6, 10, 11, 12, 13} {
+			for site := 0; site < 4; site++ {
+				s := g.base()
+				topic := uint64(g.r.Intn(3))
+				nsubs := 2 + g.r.Intn(2)
+				g.plainSubs(s, nsubs, topic)
+				v := 100 + 10*kind + uint64(g.r.Intn(5))
+				switch site {
+				case 0:
+					g.plainPubs(s, 1, 3, 4, topic, jEvN(34, jAny, uint64(nsubs)))
+					s.putScript = []uint64{0, v}
+				case 1:
+					g.plainPubs(s, 1, 3, 4, topic, jEvN(34, jAny, uint64(nsubs)))
+					s.putScript = []uint64{0, v + 200} // the error comes together with the message
+				case 2:
+					s.repScript = []uint64{0, v}
+					for i := 1; i < nsubs; i++ {
+						s.subs[i].start = jEvN(31, jAny, uint64(i))
+					}
+					g.plainPubs(s, 1, 3, 4, topic, jEvN(31, jAny, uint64(nsubs)))
+				default:
+					g.plainPubs(s, 1, 3, 4, topic, jEvN(34, jAny, uint64(nsubs)))
+					s.subs[0].script = []uint64{0, 0, v}
+				}
+				s.shuts = []jShutSpec{jFinalShut()}
+				g.emit("joe", "error-character-sweep/"+jErrKindName[kind], s)
+			}
+		}
 	}
 	for n := 0; n < 60*mult; n++ {
 		g.emit("joe", "random", g.tplRandom(maxSubs))
